@@ -40,6 +40,6 @@ import (
 func TestRtmpToTsHlsRtsp(t *testing.T) {
 	pbt.Run(t, pbt.Spec[Case]{
 		ID: "C06", Name: "rtmp-to-ts-hls-rtsp", Gen: genCase, Run: run, Classify: classify,
-		Quick: 700, Thorough: 5000,
+		Quick: 1000, Thorough: 7000,
 	})
 }
